@@ -1085,6 +1085,16 @@ def formatted_value(run, model, rule="C06.fstring-format"):
         return ("miss",)
 
     def const_int(t):
+        if t[0] == "global" and t[1] in model.modules:
+            # a module-level constant holding the conversion code
+            vals = model.modules[t[1]].assigns.get(t[2], [])
+            if len(vals) == 1:
+                try:
+                    v_ = ast.literal_eval(vals[0])
+                except (ValueError, SyntaxError):
+                    return None
+                return v_ if isinstance(v_, int) and not isinstance(v_, bool) else None
+            return None
         if t[0] == "const":
             try:
                 return int(t[1])
